@@ -29,9 +29,10 @@ def gen_case(rng, tier, avoid):
     spec = gen.simple_file(rng, n_lf=n_lf, max_width=10)
     rows = gen.max_rows(spec)
     ops, data = spec.ops, None
-    src = gen.pick(rng, ['inline', 'inline', 'inline', 'dict', 'h5', 'struct'])
+    src = gen.pick(rng, ['inline', 'inline', 'inline', 'dict', 'h5', 'struct', 'struct'])
     if src != 'inline':
-        ops, data = gen.externalize(spec.ops, src, rng)       # the input chunks then come through the source wrappers / real HDF5 I/O
+        plain = src == 'struct' and rng.random() < 0.7      # field names/order == channel list: the zero-copy fast path
+        ops, data = gen.externalize(spec.ops, src, rng, extras=not plain, permute=not plain, rename=not plain)
     ocs_pool = C.sym_ocs_choices(rng)
     ics_pool = gen.ics_choices(rng, rows)
     configs = []
